@@ -217,7 +217,7 @@ def run_case(case):
                     and float(np.abs(got[k] - ref[k]).max()) > 1e-12 * max(fmax, 1e-300)
                     for k in ("E", "H")
                 )
-                override = "tfsf-box-source-multi-device" if (has_tfsf and fields_differ) else None
+                override = "tfsf-box-source-multi-device" if (has_tfsf and fields_differ and metas[n].get("xla_probe")) else None
                 if metas[n].get("xla_probe") is not None:
                     r.branch(f"xla-overlapping-slice-add-probe:n={n}:" + ("miscompiles" if metas[n]["xla_probe"] else "ok"))
                 for name, want in ref.items():
